@@ -211,7 +211,10 @@ def primLine (parts : List String) : String :=
            let data := unhex (arg 5)
            let key := unhex (arg 6)
            let o := hkdf3 S (key.take h.hashLen) data
-           s!"ok {hex (h.hash data)} {hex (hmac S key data)} {hex o.1} {hex o.2.1}"
+           -- ... and input in pieces is input of the concatenation (pending ++ data ++ key, fed as three pieces,
+           -- with a result() read in the middle that must not disturb the object)
+           let pend := unhex (arg 4)
+           s!"ok {hex (h.hash data)} {hex (hmac S key data)} {hex o.1} {hex o.2.1} {hex (h.hash (pend ++ data))} {hex (h.hash (pend ++ data ++ key))}"
          else if kind == "hmacseq" then
            -- several HMACs on ONE hash object of the implementation: the function has no memory
            let outs := ((arg 4).splitOn ",").map fun kd =>
